@@ -8,7 +8,6 @@ through the public Tree API.
 """
 import io
 import os
-import stat
 import tarfile
 import time
 import zipfile
